@@ -717,6 +717,16 @@ func (e *eng) Op(f []string, line string, out *hx.Out) {
 			v := e.versions[name]
 			l := collect(v.t.Iterator())
 			c11(sameList(l, v.ref.sorted()) && v.t.Len() == len(v.ref), "persistence-version")
+			// point lookups too: a descent compares the node prefixes that full iteration never looks at
+			for _, e2 := range l {
+				if got, _, ok := v.t.Get(e2.k); !ok || got != e2.v {
+					c11(false, "persistence-version-get")
+				}
+				it, _ := v.t.Prefix(e2.k)
+				if k0, v0, ok := it.Next(); !ok || !bytes.Equal(k0, e2.k) || v0 != e2.v {
+					c11(false, "persistence-version-prefix")
+				}
+			}
 			fmt.Fprintf(&sb, " v%s=%s", name, short(l))
 		}
 		for _, name := range e.corder {
